@@ -24,6 +24,14 @@ import time
 END_CUSTOM = 'the-end'
 
 
+def fresh_end():
+    """the custom end marker as it arrives through a queue between processes: EQUAL to the one given to the constructor, never
+    the same object (a string built at run time is not interned)"""
+    m = ''.join(('the', '-', 'end'))
+    assert m == END_CUSTOM and m is not END_CUSTOM
+    return m
+
+
 def payload(i, custom):
     """item number -> object put into the queue (with a custom end marker, None is ordinary data)"""
     if custom and i == 2:
@@ -127,7 +135,7 @@ def replay_one(case, tick=False):
     b, w, custom, times, exp = case
     n = len(times) - 1
     end = END_CUSTOM if custom else None
-    arrivals = [(times[i], payload(i + 1, custom)) for i in range(n)] + [(times[n], end)]
+    arrivals = [(times[i], payload(i + 1, custom)) for i in range(n)] + [(times[n], fresh_end() if custom else None)]
     clock = TickClock() if tick else VClock()
     q = HarnessQueue(clock, arrivals)
     saved = time.perf_counter
@@ -143,7 +151,7 @@ def replay_one(case, tick=False):
                 except StopIteration:
                     break
                 items = [number(x) for x in batch]
-                first = next((t for t, obj in q.gets if obj is not end and number(obj) == items[0]), None)
+                first = next((t for t, obj in q.gets if obj != end and number(obj) == items[0]), None)
                 got.append([grid(clock.peek()), first, items])
                 if len(got) > n + 1:
                     return {'what': 'too-many-batches', 'got': got}
@@ -254,7 +262,7 @@ def _make_scenario(sc):
         def producer():
             for k, g in enumerate(sc['gaps']):
                 time.sleep(g)
-                q.put(end if k == n else payload(k + 1, custom))
+                q.put((fresh_end() if custom else None) if k == n else payload(k + 1, custom))
 
         th = threading.Thread(target=producer, name='producer')
         th.start()
